@@ -1,4 +1,5 @@
 import H5V.Lemmas.HtmlTBModesDefs
+import H5V.Lemmas.HtmlTBModesInvModel
 /-!
 The driver: `process_to_completion` / `process_token` / a token list of the model against
 `loopDev` / `processTokenDev` / `runDev` of the specification, given the simulation of every rule
@@ -349,8 +350,8 @@ theorem TokPost.after_query {spec spec' : SState → Spec.TreeModes.M (Step Id)}
     {res : ProcessResult} {c1 c2 : List Call} (hm : MInv s) (hs : SameTB s s1) (he : Ext2 s c1 s1) (hc : edits c1 = [])
     (h : TokPost spec' s1 tok res s' c2) (hspec : ∀ x, AuxOk s x → spec (absF s x) = spec' (absF s x)) :
     TokPost spec s tok res s' (c1 ++ c2) := by
-  obtain ⟨hres, hminv, hcfg, ids, f⟩ := h
-  refine ⟨hres, hminv, hcfg.trans (cfgOf_of_same hm hs he.ext), ids, fun x rest hx hsup => ?_⟩
+  obtain ⟨hres, hminv, hcfg, ids, hfi, f⟩ := h
+  refine ⟨hres, hminv, hcfg.trans (cfgOf_of_same hm hs he.ext), ids, hfi.of_dom he.ext, fun x rest hx hsup => ?_⟩
   obtain ⟨x', ops, e, r1, r2, r3, r4, r5, r6, r7⟩ := f x rest (hx.of_same hm hs he.ext) hsup
   rw [absF_of_same x hm hs he.ext] at e
   refine ⟨x', ops, (hspec x hx).trans e, r1, r2, r3, r4, r5, r6, ?_⟩
@@ -583,19 +584,31 @@ structure DLink (s : State) (x : Aux) (s' : State) (x' : Aux) (calls : List Call
 
 def DTr (s s' : State) (calls : List Call) (R : Aux → Aux → Prop) : Prop :=
   cfgOf s' = cfgOf s ∧ TBSafe.Ext s.dom s'.dom ∧
-    ∃ ids, ∀ x rest, AuxOk s x → x.supply = ids ++ rest → ∃ x', DLink s x s' x' calls rest ∧ R x x'
+    ∃ ids, FreshIds s ids ∧ ∀ x rest, AuxOk s x → x.supply = ids ++ rest → ∃ x', DLink s x s' x' calls rest ∧ R x x'
 
 theorem DTr.conseq {s s' : State} {c : List Call} {R R' : Aux → Aux → Prop} (h : DTr s s' c R)
     (hr : ∀ x x', AuxOk s x → R x x' → R' x x') : DTr s s' c R' := by
-  obtain ⟨hc, he, ids, f⟩ := h
-  refine ⟨hc, he, ids, fun x rest hx hs => ?_⟩
+  obtain ⟨hc, he, ids, hfi, f⟩ := h
+  refine ⟨hc, he, ids, hfi, fun x rest hx hs => ?_⟩
   obtain ⟨x', l, r⟩ := f x rest hx hs
   exact ⟨x', l, hr x x' hx r⟩
 
+/-- the node ids taken along a driver stretch are fresh -/
+theorem DTr.withFresh {s s' : State} {c : List Call} {R : Aux → Aux → Prop} (h : DTr s s' c R) :
+    DTr s s' c (fun x x' => R x x' ∧ FreshSup s x x') := by
+  obtain ⟨hc, he, ids, hfi, f⟩ := h
+  refine ⟨hc, he, ids, hfi, fun x rest hx hs => ?_⟩
+  obtain ⟨x', l, r⟩ := f x rest hx hs
+  refine ⟨x', l, r, ?_⟩
+  intro used hu
+  rw [hs, l.supply] at hu
+  rw [← List.append_cancel_right hu]
+  exact hfi
+
 theorem DTr.of_tr {s s' : State} {c : List Call} {R : Aux → Aux → Prop} (h : Tr s s' c R) :
     DTr s s' c (fun x x' => R x x' ∧ AuxOk s' x' ∧ x'.out.switch = x.out.switch ∧ x'.out.script = x.out.script) := by
-  obtain ⟨_, hc, he, ids, f⟩ := h
-  refine ⟨hc, he, ids, fun x rest hx hs => ?_⟩
+  obtain ⟨_, hc, he, ids, hfi, f⟩ := h
+  refine ⟨hc, he, ids, hfi, fun x rest hx hs => ?_⟩
   obtain ⟨x', l, r⟩ := f x rest hx hs
   exact ⟨x', ⟨fun _ => l.aux, l.supply, l.outs, l.log⟩, r, l.aux, l.switch, l.script⟩
 
@@ -606,18 +619,22 @@ theorem cfgOf_applyRes (res : ProcessResult) (s : State) : cfgOf (applyRes res s
 theorem DTr.of_tokPost {spec : SState → Spec.TreeModes.M (Step Id)} {s s' : State} {tok : Token} {res : ProcessResult}
     {c : List Call} (he : TBSafe.Ext s.dom s'.dom) (h : TokPost spec s tok res s' c) :
     DTr s (applyRes res s') c (fun x x' => spec (absF s x) = .ok (stepOf res s' x') ∧ OutRel res x.out x'.out ∧
-      (x'.stopped = true → res = .done ∧ tok = .eof)) := by
-  obtain ⟨_, _, hc, ids, f⟩ := h
-  refine ⟨by rw [cfgOf_applyRes]; exact hc, by rw [applyRes_dom]; exact he, ids, fun x rest hx hs => ?_⟩
+      (x'.stopped = true → res = .done ∧ tok = .eof) ∧ FreshSup s x x') := by
+  obtain ⟨_, _, hc, ids, hfi, f⟩ := h
+  refine ⟨by rw [cfgOf_applyRes]; exact hc, by rw [applyRes_dom]; exact he, ids, hfi, fun x rest hx hs => ?_⟩
   obtain ⟨x', ops, e, r1, r2, r3, r4, r5, r6, r7⟩ := f x rest hx hs
-  exact ⟨x', ⟨r1, r3, r5, ops, r6, by rw [applyRes_dom]; exact r7⟩, e, r4, r2⟩
+  refine ⟨x', ⟨r1, r3, r5, ops, r6, by rw [applyRes_dom]; exact r7⟩, e, r4, r2, ?_⟩
+  intro used hu
+  rw [hs, r3] at hu
+  rw [← List.append_cancel_right hu]
+  exact hfi
 
 theorem DTr.trans {s s1 s2 : State} {c1 c2 : List Call} {R1 R2 : Aux → Aux → Prop}
     (h1 : DTr s s1 c1 R1) (hlive : ∀ x x1, R1 x x1 → x1.stopped = false) (h2 : DTr s1 s2 c2 R2) :
     DTr s s2 (c1 ++ c2) (fun x x2 => ∃ x1, R1 x x1 ∧ AuxOk s1 x1 ∧ R2 x1 x2) := by
-  obtain ⟨hc1, he1, ids1, f1⟩ := h1
-  obtain ⟨hc2, he2, ids2, f2⟩ := h2
-  refine ⟨hc2.trans hc1, he1.trans he2, ids1 ++ ids2, ?_⟩
+  obtain ⟨hc1, he1, ids1, hfi1, f1⟩ := h1
+  obtain ⟨hc2, he2, ids2, hfi2, f2⟩ := h2
+  refine ⟨hc2.trans hc1, he1.trans he2, ids1 ++ ids2, hfi1.append (hfi2.of_dom he1), ?_⟩
   intro x rest hx hs
   obtain ⟨x1, l1, r1⟩ := f1 x (ids2 ++ rest) hx (by rw [hs, List.append_assoc])
   have hx1 := l1.aux (hlive x x1 r1)
@@ -633,8 +650,8 @@ theorem DTr.trans {s s1 s2 : State} {c1 c2 : List Call} {R1 R2 : Aux → Aux →
 theorem DTr.then_same {s s1 s2 : State} {c1 c2 : List Call} {R : Aux → Aux → Prop} (h : DTr s s1 c1 R) (hm : MInv s1)
     (hs : SameTB s1 s2) (he : Ext2 s1 c2 s2) (hc : edits c2 = []) :
     DTr s s2 (c1 ++ c2) (fun x x' => R x x' ∧ absF s2 x' = absF s1 x') := by
-  obtain ⟨hc1, he1, ids, f⟩ := h
-  refine ⟨(cfgOf_of_same hm hs he.ext).trans hc1, he1.trans he.ext, ids, fun x rest hx hsup => ?_⟩
+  obtain ⟨hc1, he1, ids, hfi, f⟩ := h
+  refine ⟨(cfgOf_of_same hm hs he.ext).trans hc1, he1.trans he.ext, ids, hfi, fun x rest hx hsup => ?_⟩
   obtain ⟨x', l, r⟩ := f x rest hx hsup
   refine ⟨x', ⟨fun h => (l.aux h).of_same hm hs he.ext, l.supply, l.outs, ?_⟩, r, absF_of_same x' hm hs he.ext⟩
   obtain ⟨o1, e1, k1⟩ := l.log
@@ -655,9 +672,37 @@ theorem OutRelR.of_same {r : SinkResult} {o o1 o2 : Out Id} (h1 : o1.switch = o.
     (h : OutRelR r o1 o2) : OutRelR r o o2 := by
   cases r <;> simp only [OutRelR] at h ⊢ <;> simp_all
 
+/-- what is threaded through the steps of one tag token: from a good abstract state, the UNMODIFIED specification's
+loop arrives at the same abstract state, which satisfies the invariant (`H5V.Lemmas.ModesInv.GStep`) -/
+def GS (s : State) (x : Aux) (tok : STok) (s' : State) (x' : Aux) : Prop :=
+  H5V.Lemmas.ModesInv.GStep (cfgOf s) false (absF s x) tok (absF s' x')
+
+/-- the facts of `HtmlTBModesInvModel` for the abstract state of `s` -/
+theorem side_absF {s : State} {x x' : Aux} (ht : TI s) (hm : MInv s) (hx : AuxOk s x) (hf : FreshSup s x x') (tok : STok)
+    {sup' : List Id} (hs : sup' = x'.supply) : Side (cfgOf s) (absF s x) tok sup' :=
+  ⟨fun _ => link_absF ht hx, fun _ => by rw [hs]; exact freshL_absF hm hx hf, textHtml_absF ht hx tok⟩
+
+theorem gs_done {s s' : State} {x x' : Aux} {tok : STok} (ht : TI s) (hm : MInv s) (hx : AuxOk s x) (hf : FreshSup s x x')
+    (e : dispatchFull (cfgOf s) (absF s x) tok = .ok (.done (absF s' x'))) : GS s x tok s' x' := by
+  intro hst hg
+  obtain ⟨hp, h1, _⟩ := full_post (cfgOf_edition s) hg hst (side_absF ht hm hx hf tok rfl) e
+  exact ⟨hp, h1 _ rfl⟩
+
+theorem gs_reprocess {s s1 s' : State} {x x1 x' : Aux} {tok : STok} (ht : TI s) (hm : MInv s) (hx : AuxOk s x)
+    (hf : FreshSup s x x1) (e : dispatchFull (cfgOf s) (absF s x) tok = .ok (.reprocess (absF s1 x1)))
+    (hc : cfgOf s1 = cfgOf s) (h2 : GS s1 x1 tok s' x') : GS s x tok s' x' := by
+  intro hst hg
+  obtain ⟨hp, _, h3⟩ := full_post (cfgOf_edition s) hg hst (side_absF ht hm hx hf tok rfl) e
+  obtain ⟨hst1, hg1⟩ : (absF s1 x1).stopped = false ∧ H5V.Lemmas.ModesInv.Good (absF s1 x1) := hp
+  unfold GS at h2
+  rw [hc] at h2
+  obtain ⟨hi, hl⟩ := h2 hst1 hg1
+  exact ⟨hi, h3 _ _ rfl hl⟩
+
 def PtcTokPost (s : State) (tok : Token) : SinkResult → State → List Call → Prop :=
   fun r s' calls => TI s' ∧ MInv s' ∧ DTr s s' calls (fun x x' => OutRelR r x.out x'.out ∧
-    LoopsTo (cfgOf s) false (absF s x) (stokOf tok) (absF s' x') ∧ (x'.stopped = true → tok = .eof))
+    LoopsTo (cfgOf s) false (absF s x) (stokOf tok) (absF s' x') ∧ (x'.stopped = true → tok = .eof) ∧
+    GS s x (stokOf tok) s' x')
 
 theorem ptc_succ (fuel : Nat) (tok : Token) (more : List Token) :
     processToCompletion (fuel + 1) tok more = ptcStep tok >>= TBSafe.ptcCont fuel tok more := by
@@ -696,9 +741,9 @@ theorem pc_ptc_tok (hmode : ∀ m, ModeSim m) (hfor : ForeignSim) (tok : Token) 
       have hm1' := hm1
       rw [happ] at hm1'
       refine ⟨ht1, hm1', hd.conseq ?_⟩
-      rintro x x' hx ⟨e, ho, hst⟩
+      rintro x x' hx ⟨e, ho, hst, hfs⟩
       rw [hstep] at e
-      exact ⟨hor _ _ ho, LoopsTo.of_full_done e, fun h => (hst h).2⟩
+      exact ⟨hor _ _ ho, LoopsTo.of_full_done e, fun h => (hst h).2, gs_done ht hm hx hfs e⟩
     unfold TBSafe.ptcCont
     cases res with
     | done =>
@@ -717,9 +762,11 @@ theorem pc_ptc_tok (hmode : ∀ m, ModeSim m) (hfor : ForeignSim) (tok : Token) 
           rw [List.append_nil]
           have hd' : DTr s s1 c1 _ := hd
           refine ⟨ht1.of_qf (qf_of_same hs2 he2), MInv.sameTB (s := s1) hm1 hs2 he2.ext, (hd'.then_same hm1 hs2 he2 hc2).conseq ?_⟩
-          · rintro x x' hx ⟨⟨e, ho, hst⟩, e2⟩
+          · rintro x x' hx ⟨⟨e, ho, hst, hfs⟩, e2⟩
+            have hgs : GS s x (stokOf tok) s2 x' := by
+              unfold GS; rw [e2]; exact gs_done (s' := s1) ht hm hx hfs e
             rw [e2]
-            exact ⟨ho, LoopsTo.of_full_done e, fun h => (hst h).2⟩
+            exact ⟨ho, LoopsTo.of_full_done e, fun h => (hst h).2, hgs⟩
         · rw [ptcNext_nil]
           exact pc_pure (hfin .continue_ (fun _ _ h => h) rfl rfl ht1)
       exact hack _
@@ -738,13 +785,13 @@ theorem pc_ptc_tok (hmode : ∀ m, ModeSim m) (hfor : ForeignSim) (tok : Token) 
       rw [List.nil_append]
       have hd' : DTr s { s1 with mode := m } c1 _ := hd
       refine ⟨ht3, hm3, (hd'.trans ?_ hd2).conseq ?_⟩
-      · rintro x x1 ⟨_, _, hst⟩
+      · rintro x x1 ⟨_, _, hst, _⟩
         cases h : x1.stopped
         · rfl
         · cases (hst h).1
-      · rintro x x2 hx ⟨x1, ⟨e, ho, _⟩, _, ho2, hl2, hst2⟩
-        refine ⟨OutRelR.of_same ho.1 ho.2 ho2, LoopsTo.of_full_reprocess e ?_, hst2⟩
+      · rintro x x2 hx ⟨x1, ⟨e, ho, _, hfs⟩, _, ho2, hl2, hst2, hg2⟩
         have hc : cfgOf { s1 with mode := m } = cfgOf s := hd'.1
+        refine ⟨OutRelR.of_same ho.1 ho.2 ho2, LoopsTo.of_full_reprocess e ?_, hst2, gs_reprocess ht hm hx hfs e hc hg2⟩
         rw [hc] at hl2
         exact hl2
     | reprocessForeign t => exact absurd hsp.r id
@@ -1047,5 +1094,62 @@ theorem processCharsDev_lf {cfg : Config Id} {σ σ' : SState} {text : Str} (hst
       rw [clearLf_eq hl'] at h0
       simp only [dropIgnoredLf, hl', Bool.false_eq_true, if_false] at h0
       exact h0
+
+/-! ### the same for the UNMODIFIED specification (`processSTok`, `processToken`) -/
+
+theorem processSTok_eq (cfg : Config Id) (fuel : Nat) {σ : SState} {stok : STok} (hst : σ.stopped = false)
+    (hne : (stok == STok.character '\n') = false) :
+    Spec.TreeModes.processSTok cfg fuel σ stok = Spec.TreeModes.loop cfg fuel false { σ with ignoreLf := false } stok := by
+  unfold Spec.TreeModes.processSTok
+  rw [if_neg (by rw [hst]; exact Bool.false_ne_true)]
+  by_cases hl : σ.ignoreLf = true
+  · rw [if_pos hl]
+    show (if (stok == STok.character '\n') = true then _ else _) = _
+    rw [if_neg (by rw [hne]; exact Bool.false_ne_true)]
+  · rw [if_neg hl, clearLf_eq (by simpa using hl)]
+
+theorem processToken_tok {cfg : Config Id} {σ σ' : SState} {tok : Spec.TreeModes.Token} (hc : isCharsSTok tok = false)
+    (hst : σ.stopped = false)
+    (h : H5V.Lemmas.ModesInv.StdLoops cfg false { σ with out := {}, ignoreLf := false } (soleSTok tok) σ') :
+    ∃ F, ∀ fuel, F ≤ fuel → Spec.TreeModes.processToken cfg fuel σ tok = .ok (finishTok tok σ') := by
+  obtain ⟨F, hF⟩ := h
+  refine ⟨F, fun fuel hfu => ?_⟩
+  have hne : (soleSTok tok == STok.character '\n') = false := by cases tok <;> rfl
+  have h1 : Spec.TreeModes.processSToks cfg fuel { σ with out := {} } tok.expand = .ok σ' := by
+    rw [expand_sole tok hc]
+    simp only [Spec.TreeModes.processSToks]
+    rw [processSTok_eq cfg fuel (σ := { σ with out := {} }) hst hne]
+    rw [hF fuel hfu]; rfl
+  unfold Spec.TreeModes.processToken
+  cases tok with
+  | chars cs => cases hc
+  | startTag t => simp only [h1, finishTok]; rfl
+  | _ => simp only [h1, finishTok]; rfl
+
+/-- the end of `processToken` keeps the invariant -/
+theorem inv_finishTok {σ : SState} (tok : Spec.TreeModes.Token) (h : H5V.Lemmas.ModesInv.Inv σ) :
+    H5V.Lemmas.ModesInv.Inv (finishTok tok σ) := by
+  intro hs
+  have hs' : σ.stopped = false := by
+    cases tok <;> first | exact hs | (simp only [finishTok] at hs; split at hs <;> exact hs)
+  have hg := h hs'
+  cases tok <;> first | exact hg.same | (simp only [finishTok]; split <;> exact hg.same)
+
+/-- one tag token: from the threaded `GStep` to `processToken` -/
+theorem std_of_gs {cfg : Config Id} {σ σ' : SState} {tok : Spec.TreeModes.Token} (hc : isCharsSTok tok = false)
+    (hst : σ.stopped = false)
+    (h : H5V.Lemmas.ModesInv.GStep cfg false { σ with out := {}, ignoreLf := false } (soleSTok tok) σ')
+    (hi : H5V.Lemmas.ModesInv.Inv σ) :
+    H5V.Lemmas.ModesInv.Inv (finishTok tok σ') ∧
+      ∃ F, ∀ fuel, F ≤ fuel → Spec.TreeModes.processToken cfg fuel σ tok = .ok (finishTok tok σ') := by
+  obtain ⟨hi', hl⟩ := h hst ((hi hst).same)
+  exact ⟨inv_finishTok tok hi', processToken_tok hc hst hl⟩
+
+/-- a character token: from the completed to the unmodified specification (nothing from the model is needed) -/
+theorem std_of_dev_chars {cfg : Config Id} (hed : cfg.edition = .customizableSelect) {σ σ' : SState} {cs : Str} {F : Nat}
+    (hF : ∀ fuel, F ≤ fuel → processTokenDev cfg fuel σ (.chars cs) = .ok σ') (hi : H5V.Lemmas.ModesInv.Inv σ) :
+    H5V.Lemmas.ModesInv.Inv σ' ∧ ∃ F, ∀ fuel, F ≤ fuel → Spec.TreeModes.processToken cfg fuel σ (.chars cs) = .ok σ' :=
+  ⟨(H5V.Lemmas.ModesInv.processToken_chars_of_dev hed hi (hF F (Nat.le_refl _))).2,
+    F, fun fuel hfu => (H5V.Lemmas.ModesInv.processToken_chars_of_dev hed hi (hF fuel hfu)).1⟩
 
 end H5V.Lemmas.HtmlTBModes
